@@ -47,9 +47,15 @@ func secondOpinion(c *Case, want bool, o *pbt.Rec) {
 		return
 	}
 	doc, errs := gqlparser.LoadQuery(schema, c.Query)
-	if len(errs) > 0 || len(doc.Operations) != 1 {
+	if len(errs) > 0 || len(doc.Operations) == 0 {
 		o.Label("second-opinion:gqlparser-rejects-operation")
 		return
+	}
+	op := doc.Operations[0]
+	if c.OperationName != "" {
+		if op = doc.Operations.ForName(c.OperationName); op == nil {
+			return
+		}
 	}
 	dec := json.NewDecoder(bytes.NewReader([]byte(c.Vars)))
 	dec.UseNumber()
@@ -57,7 +63,7 @@ func secondOpinion(c *Case, want bool, o *pbt.Rec) {
 	if err := dec.Decode(&vars); err != nil {
 		return
 	}
-	_, err := validator.VariableValues(schema, doc.Operations[0], vars)
+	_, err := validator.VariableValues(schema, op, vars)
 	if (err == nil) == want {
 		o.Label("second-opinion:gqlparser-agrees")
 	} else if want {
